@@ -1283,11 +1283,12 @@ impl SourceBuf {
             return Ok(false);
         }
 
-        let (sym, sym_end) =
-            match Symbol::from_slice_index(&self.buf, sym_end) {
-                Ok(Some(some)) => some,
-                _ => return Ok(false),
-            };
+        // The marker must be a token of its own. The symbol following it
+        // is only looked at, it is dealt with by `next_item`.
+        let (sym, _) = match Symbol::from_slice_index(&self.buf, sym_end) {
+            Ok(Some(some)) => some,
+            _ => return Ok(false),
+        };
         if sym.is_word_char() {
             return Ok(false);
         }
